@@ -8,10 +8,17 @@ import (
 	"encoding/json"
 	"fmt"
 	"math/rand"
+	"os"
 	"sort"
 	"strings"
 
+	"github.com/dgraph-io/badger/v3"
+	"github.com/wrgl/wrgl/pkg/objects"
+	objbadger "github.com/wrgl/wrgl/pkg/objects/badger"
+	"github.com/wrgl/wrgl/pkg/ref"
+
 	"verifharness/internal/child"
+	"verifharness/internal/cli"
 	"verifharness/internal/tbl"
 )
 
@@ -31,15 +38,16 @@ type Event struct {
 }
 
 type Cfg struct {
-	Cols    []string `json:"cols"`
-	PK      []string `json:"pk"`
-	NRows   int      `json:"nrows"`
-	RunSize uint64   `json:"runsize"`
-	Workers int      `json:"workers"`
-	Delim   string   `json:"delim"`
-	Seed    int64    `json:"seed"`
-	Variant int      `json:"variant"`
-	Kind    string   `json:"kind"`
+	Cols    []string  `json:"cols"`
+	PK      []string  `json:"pk"`
+	NRows   int       `json:"nrows"`
+	RunSize uint64    `json:"runsize"`
+	Workers int       `json:"workers"`
+	Delim   string    `json:"delim"`
+	Seed    int64     `json:"seed"`
+	Variant int       `json:"variant"`
+	Kind    string    `json:"kind"`
+	Case    *CaseSpec `json:"case,omitempty"` // the generating case (first event of a trace), for replay
 }
 
 var awkward = []string{
@@ -232,7 +240,7 @@ func contentID(t *Table, rows [][]string) string {
 }
 
 // Project builds the trace event from the parsed input rows and the stored table.
-func Project(t *Table, input [][]string, db *tbl.SafeStore, sum []byte, ingErr error, cfg Cfg) *Event {
+func Project(t *Table, input [][]string, db objects.Store, sum []byte, ingErr error, cfg Cfg) *Event {
 	e := &Event{Op: "ingest", Cfg: cfg, InKeys: []int{}, InIDs: []int{}, Out: []int{}}
 	// ranks of keys in byte order
 	keys := make([][]string, len(input))
@@ -308,7 +316,7 @@ func delimName(d rune) string {
 }
 
 // IngestVariant ingests t with one configuration and returns the event (+ table observation).
-func IngestVariant(t *Table, rows [][]string, cfg Cfg, delim rune, db *tbl.SafeStore) (*Event, *tbl.Obs) {
+func IngestVariant(t *Table, rows [][]string, cfg Cfg, delim rune, db objects.Store) (*Event, *tbl.Obs) {
 	all := append([][]string{t.Cols}, rows...)
 	b := tbl.CSV(all, delim)
 	parsed, err := parseCSV(b, delim)
@@ -355,6 +363,8 @@ type CaseSpec struct {
 	Idx        int   `json:"idx"`
 	Variants   int   `json:"variants"`
 	MaxWorkers int   `json:"maxworkers"`
+	Badger     bool  `json:"badger"` // one more variant ingested into a real badger store
+	CLI        bool  `json:"cli"`    // commit / re-commit through the real command line
 }
 
 const resetLine = `{"op":"reset","cfg":{},"inkeys":[],"inids":[],"out":[],"rows":0,"cid":"","sum":"","err":"","oversize":false,"unique":true}`
@@ -366,8 +376,14 @@ func RunCase(cs CaseSpec) (events []interface{}, obs []interface{}) {
 	events = append(events, json.RawMessage(resetLine))
 	db := tbl.NewSafeStore()
 	total := totalBytes(t.Rows)
+	first := true
 	add := func(ev *Event, o *tbl.Obs) {
 		if ev != nil {
+			if first {
+				c := cs
+				ev.Cfg.Case = &c
+				first = false
+			}
 			events = append(events, ev)
 		}
 		if o != nil {
@@ -392,6 +408,23 @@ func RunCase(cs CaseSpec) (events []interface{}, obs []interface{}) {
 			}
 		}
 		add(IngestVariant(t, rows, cfg, delim, db))
+	}
+	if cs.Badger && kind != "oversize" {
+		if dir, err := os.MkdirTemp("", "badger"); err == nil {
+			if bdb, err := badger.Open(badger.DefaultOptions(dir).WithLoggingLevel(badger.ERROR)); err == nil {
+				st := objbadger.NewStore(bdb)
+				rows := append([][]string{}, t.Rows...)
+				rng.Shuffle(len(rows), func(i, j int) { rows[i], rows[j] = rows[j], rows[i] })
+				add(IngestVariant(t, rows, Cfg{Seed: cs.Seed, Variant: 50, Kind: kind, Workers: 3 + rng.Intn(6), RunSize: total/3 + 1}, ';', st))
+				st.Close()
+			}
+			os.RemoveAll(dir)
+		}
+	}
+	if cs.CLI && kind != "oversize" && kind != "big" {
+		for _, e := range cliCase(t, cs, rng) {
+			events = append(events, e)
+		}
 	}
 	if kind == "neighbours" && len(t.Rows) > 0 && len(t.Cols) > 0 {
 		// tables differing in exactly one cell / column name / column order / key choice
@@ -445,4 +478,84 @@ func RecCase(i int, raw []byte) child.Result {
 	child.EmitBatch("tableobs", obs)
 	_, kind, _ := GenCase(cs.Seed, cs.Idx)
 	return child.Pass(kind)
+}
+
+// cliCase commits the table through the real command line, re-commits the same
+// content in another row order (must be detected as "no change": no new commit), then
+// commits a changed content (must create a commit).
+func cliCase(t *Table, cs CaseSpec, rng *rand.Rand) (events []interface{}) {
+	fail := func(step string, err error, out string) []interface{} {
+		return append(events, map[string]interface{}{"op": "recommit", "step": step, "samecontent": true, "newcommit": true,
+			"err": fmt.Sprintf("%v: %s", err, out)})
+	}
+	dir, err := os.MkdirTemp("", "clirepo")
+	if err != nil {
+		return nil
+	}
+	defer os.RemoveAll(dir)
+	r, err := cli.NewRepo(dir, "r")
+	if err != nil {
+		return fail("init", err, "")
+	}
+	all := append([][]string{t.Cols}, t.Rows...)
+	fp, _ := r.WriteFile("data.csv", tbl.CSV(all, 0))
+	args := []string{"commit", "main", fp, "first", "-n", "1", "--set-file"}
+	if len(t.PK) > 0 {
+		args = append(args, "-p", strings.Join(t.PK, ","), "--set-primary-key")
+	}
+	if out, err := r.Run(nil, args...); err != nil {
+		return fail("commit", err, out)
+	}
+	head := func() (commit string, ev *Event) {
+		db, rs, closeFn, err := r.Open()
+		if err != nil {
+			return "", nil
+		}
+		defer closeFn()
+		sum, err := ref.GetHead(rs, "main")
+		if err != nil {
+			return "", nil
+		}
+		com, err := objects.GetCommit(db, sum)
+		if err != nil {
+			return "", nil
+		}
+		parsed, _ := parseCSV(tbl.CSV(all, 0), 0)
+		cfg := Cfg{Seed: cs.Seed, Variant: 200, Kind: "cli", Workers: 1, Cols: t.Cols, PK: t.PK, NRows: len(t.Rows), Delim: ","}
+		if cfg.PK == nil {
+			cfg.PK = []string{}
+		}
+		return string(sum), Project(t, parsed[1:], db, com.Table, nil, cfg)
+	}
+	c1, ev := head()
+	if ev == nil {
+		return fail("head", fmt.Errorf("no head after commit"), "")
+	}
+	events = append(events, ev)
+	// same content, other row order, other memory limit / workers
+	rows := append([][]string{}, t.Rows...)
+	rng.Shuffle(len(rows), func(i, j int) { rows[i], rows[j] = rows[j], rows[i] })
+	r.WriteFile("data.csv", tbl.CSV(append([][]string{t.Cols}, rows...), 0))
+	if out, err := r.Run(nil, "commit", "main", "second", "--no-cache", "-n", "8", "--mem-limit", fmt.Sprint(totalBytes(t.Rows)/3+1)); err != nil {
+		return fail("recommit", err, out)
+	}
+	c2, _ := head()
+	unique := ev.Unique
+	if unique {
+		events = append(events, map[string]interface{}{"op": "recommit", "step": "same", "samecontent": true, "newcommit": c2 != c1, "err": ""})
+	}
+	// changed content
+	if len(t.Rows) > 0 {
+		rows[0] = append([]string{}, rows[0]...)
+		rows[0][len(rows[0])-1] += "~changed"
+		r.WriteFile("data.csv", tbl.CSV(append([][]string{t.Cols}, rows...), 0))
+		if out, err := r.Run(nil, "commit", "main", "third", "--no-cache", "-n", "1"); err != nil {
+			return fail("commit-changed", err, out)
+		}
+		c3, _ := head()
+		if unique {
+			events = append(events, map[string]interface{}{"op": "recommit", "step": "changed", "samecontent": false, "newcommit": c3 != c2, "err": ""})
+		}
+	}
+	return events
 }
